@@ -62,6 +62,7 @@ type HarnessResult struct {
 	Unwound     int             `json:"unwound"`
 	UnwoundAt   []string        `json:"unwound_at,omitempty"`
 	Obligations int             `json:"obligations"`
+	Folded      int             `json:"folded"`
 	ObQueries   int             `json:"ob_queries"`
 	Queries     int             `json:"queries"`
 	Sat         int             `json:"sat"`
@@ -237,6 +238,7 @@ func (w *worker) fill(res *HarnessResult, e *Engine, s *Solver, t0 time.Time) {
 	res.Paths, res.Steps, res.Forks, res.Unwound = e.Paths, e.Steps, e.Forks, e.Unwound
 	res.UnwoundAt = e.UnwoundAt
 	res.Obligations, res.ObQueries = e.Discharged, e.ObQueries
+	res.Folded = e.Folded
 	res.Queries, res.Sat, res.Unsat, res.Unknown = s.Queries, s.Sat, s.Unsat, s.Unknown
 	res.CoreHits, res.PoolHits, res.Merged = e.CoreHits, e.PoolHits, e.Merged
 	res.SolverSec = s.Time.Seconds()
